@@ -6,7 +6,6 @@
 # then applies it to /repo, runs the given property checks and undoes it.
 set -u
 export GOFLAGS=-mod=mod GOPROXY=off
-if [ -n "$(git -C /repo status --short)" ]; then echo "refusing: /repo has uncommitted changes (they would be lost by the final checkout)"; exit 2; fi
 name=$1; shift
 sd=/verif/seeded/$name
 wt=/tmp/conf_$name
@@ -26,8 +25,21 @@ echo "-- demo WITH change:"; tail -3 $sd/confirm_with_change.txt
 rm $wt/$demo_path
 ( cd $wt && go test -vet=off -count=1 ./internal/... ./cmd/... 2>&1 | grep -v "no test files" | tail -12 ) > $sd/suite_with_change.txt
 echo "-- existing suite WITH change:"; cat $sd/suite_with_change.txt
+# run the checks against the change: in the scratch worktree (SEEDCHECK_INPLACE unset; /repo is not
+# touched, several seeds can be checked at once), or — SEEDCHECK_INPLACE=1 — by applying it to /repo
+# itself and undoing it straight afterwards
+if [ -z "${SEEDCHECK_INPLACE:-}" ]; then
+  ( cd $wt && git checkout -q -- . && git apply $sd/patch.diff ) || exit 2
+  for p in "$@"; do
+    GOVC_SCRATCH=$wt/.govc /verif/bin/govc check -prop $p -tier quick -repo $wt > $sd/check_$p.txt 2>&1; echo "exit=$?" >> $sd/check_$p.txt
+    rm -rf $sd/replays_$p; [ -d $wt/.govc/replays/$p ] && cp -r $wt/.govc/replays/$p $sd/replays_$p
+    echo "-- check $p:"; grep -E "VIOLATION|FAILED-OBLIGATION|ENGINE|property=|exit=" $sd/check_$p.txt | cut -c1-260 | tail -8
+  done
+  git -C /repo worktree remove --force $wt
+  exit 0
+fi
 git -C /repo worktree remove --force $wt
-# run the checks against the change
+if [ -n "$(git -C /repo status --short)" ]; then echo "refusing: /repo has uncommitted changes (they would be lost by the final checkout)"; exit 2; fi
 git -C /repo apply $sd/patch.diff || exit 2
 for p in "$@"; do
   ( cd /verif && ./check $p quick > $sd/check_$p.txt 2>&1; echo "exit=$?" >> $sd/check_$p.txt )
